@@ -5,6 +5,7 @@ import (
 	"go/ast"
 	"go/token"
 	"go/types"
+	"strings"
 
 	"golang.org/x/tools/go/packages"
 )
@@ -68,15 +69,30 @@ func guard(p *packages.Package, f *ast.File, rel func(string) string) error {
 			}
 			switch obj.Pkg().Path() {
 			case "sync/atomic":
-				fail(n.Pos(), "sync/atomic."+obj.Name())
+				// never blocks: the schedule stays decided by the simulator
+				warn(p, n.Pos(), "sync/atomic."+obj.Name(), rel)
 			case "sync":
 				switch o := obj.(type) {
 				case *types.TypeName:
-					if o.Name() != "Mutex" && o.Name() != "RWMutex" {
+					switch o.Name() {
+					case "Mutex", "RWMutex":
+					case "Map", "Once", "Pool":
+						// internally synchronised, blocks only for the length of an
+						// uninstrumented critical section (no yield point inside): cannot
+						// park a task; not modelled as happens-before edges
+						warn(p, n.Pos(), "sync."+o.Name(), rel)
+					default:
 						fail(n.Pos(), "sync."+o.Name())
 					}
 				case *types.Func:
 					if name, _ := mutexMethod(o); name == "" {
+						recv := ""
+						if sig, ok := o.Type().(*types.Signature); ok && sig.Recv() != nil {
+							recv = sig.Recv().Type().String()
+						}
+						if strings.Contains(recv, "sync.Map") || strings.Contains(recv, "sync.Once") || strings.Contains(recv, "sync.Pool") {
+							break
+						}
 						fail(n.Pos(), "sync "+o.FullName())
 					}
 				case *types.Var: // a field of a sync type
@@ -93,4 +109,13 @@ func guard(p *packages.Package, f *ast.File, rel func(string) string) error {
 		return true
 	})
 	return err
+}
+
+// Warnings: non-blocking synchronisation the simulator does not model (listed
+// in the site table; the checks report them as coverage).
+var Warnings []string
+
+func warn(p *packages.Package, pos token.Pos, what string, rel func(string) string) {
+	at := p.Fset.Position(pos)
+	Warnings = append(Warnings, fmt.Sprintf("%s at %s:%d", what, rel(at.Filename), at.Line))
 }
